@@ -347,33 +347,50 @@ Proof.
       unfold Good, Step, reset_c, reset_ev, close_c, close_ev, abort_ev. cs. gen_wires.
       mrun. rewrite smon_run_app_wires by (exact Hw || reflexivity). mrun.
       eexists; split; [reflexivity|]. split; [r_closed|inv_tac].
-    + destruct (dr_drain d1 t1) as [[? ?] t2]. rewrite do_reset_eq.
-      unfold Good, Step, reset_c, reset_ev, abort_ev. cs. gen_wires.
-      mrun. rewrite smon_run_app_wires by (exact Hw || reflexivity). mrun.
-      eexists; split; [reflexivity|]. split; [r_open|inv_tac].
+    + destruct (dr_drain d1 t1) as [[de ?] t2]. unfold close_unless. destruct (drained de).
+      * cbv beta iota. rewrite do_reset_eq.
+        unfold Good, Step, reset_c, reset_ev, abort_ev. cs. gen_wires.
+        mrun. rewrite smon_run_app_wires by (exact Hw || reflexivity). mrun.
+        eexists; split; [reflexivity|]. split; [r_open|inv_tac].
+      * (* the end of the message was not reached: Close *)
+        rewrite do_close_eq. cbv beta iota. rewrite do_reset_eq.
+        unfold Good, Step, reset_c, reset_ev, close_c, close_ev, abort_ev. cs. gen_wires.
+        mrun. rewrite smon_run_app_wires by (exact Hw || reflexivity). mrun.
+        eexists; split; [reflexivity|]. split; [r_closed|inv_tac].
   - (* LMTP, one status for everybody *)
     destruct (dp_panic p).
     + rewrite do_close_eq.
       unfold Good, Step, reset_c, reset_ev, close_c, close_ev, abort_ev. cs. gen_wires.
       mrun.
       eexists; split; [reflexivity|]. split; [r_closed|inv_tac].
-    + destruct (dr_drain d1 t1) as [[? ?] t2]. rewrite do_reset_eq.
+    + destruct (dr_drain d1 t1) as [[de ?] t2].
       pose proof (forallb_map_status_reply (fun _ => ret) (r0 :: rc)) as Hw.
       set (replies := map _ (r0 :: rc)) in *. clearbody replies.
-      unfold Good, Step, reset_c, reset_ev, abort_ev. cs. gen_wires.
-      mrun. rewrite smon_run_app_wires by (exact Hw || reflexivity). mrun.
-      eexists; split; [reflexivity|]. split; [r_open|inv_tac].
+      unfold close_unless. destruct (drained de).
+      * cbv beta iota. rewrite do_reset_eq.
+        unfold Good, Step, reset_c, reset_ev, abort_ev. cs. gen_wires.
+        mrun. rewrite smon_run_app_wires by (exact Hw || reflexivity). mrun.
+        eexists; split; [reflexivity|]. split; [r_open|inv_tac].
+      * rewrite do_close_eq. cbv beta iota. rewrite do_reset_eq.
+        unfold Good, Step, reset_c, reset_ev, close_c, close_ev, abort_ev. cs. gen_wires.
+        mrun. rewrite smon_run_app_wires by (exact Hw || reflexivity). mrun.
+        eexists; split; [reflexivity|]. split; [r_closed|inv_tac].
   - (* SMTP *)
     destruct (dp_panic p).
     + rewrite do_close_eq.
       unfold Good, Step, reset_c, reset_ev, close_c, close_ev, abort_ev. cs. gen_wires.
       mrun.
       eexists; split; [reflexivity|]. split; [r_closed|inv_tac].
-    + destruct (dr_drain d1 t1) as [[? ?] t2]. destruct (data_error_to_status ret) as [[code ec] msg].
-      rewrite do_reset_eq.
-      unfold Good, Step, reset_c, reset_ev, abort_ev. cs. gen_wires.
-      mrun.
-      eexists; split; [reflexivity|]. split; [r_open|inv_tac].
+    + destruct (dr_drain d1 t1) as [[de ?] t2]. destruct (data_error_to_status ret) as [[code ec] msg].
+      unfold close_unless. destruct (drained de).
+      * cbv beta iota. rewrite do_reset_eq.
+        unfold Good, Step, reset_c, reset_ev, abort_ev. cs. gen_wires.
+        mrun.
+        eexists; split; [reflexivity|]. split; [r_open|inv_tac].
+      * rewrite do_close_eq. cbv beta iota. rewrite do_reset_eq.
+        unfold Good, Step, reset_c, reset_ev, close_c, close_ev, abort_ev. cs. gen_wires.
+        mrun.
+        eexists; split; [reflexivity|]. split; [r_closed|inv_tac].
 Qed.
 
 
@@ -551,11 +568,45 @@ Qed.
 
 (* ---------- BDAT ---------- *)
 
+(* discardChunk in closed form: the transport behind the octets that could be
+   read, and whether the declared size was not reached (then: Close) *)
+Definition discard_t (c : conn) (size : N) : transport :=
+  set_limit (snd (t_copy_n size (set_limit (c_t c) 0))) (cf_max_line cfg).
+Definition discard_short (c : conn) (size : N) : bool :=
+  is_some (snd (fst (t_copy_n size (set_limit (c_t c) 0)))).
+
 Lemma discard_chunk_eq c size :
-  discard_chunk cfg c size = upd_t c (c_t (discard_chunk cfg c size)).
+  discard_chunk cfg c size
+  = if discard_short c size
+    then (close_c (upd_t c (discard_t c size)), close_ev (upd_t c (discard_t c size)))
+    else (upd_t c (discard_t c size), []).
 Proof.
-  unfold discard_chunk. destruct (t_copy_n size (set_limit (c_t c) 0)) as [[? ?] t1].
-  destruct c; reflexivity.
+  unfold discard_chunk, discard_short, discard_t, close_unless.
+  destruct (t_copy_n size (set_limit (c_t c) 0)) as [[? [e|]] t1]; cbn [fst snd is_some].
+  - apply do_close_eq.
+  - reflexivity.
+Qed.
+
+Lemma close_ev_upd_t c t' : close_ev (upd_t c t') = close_ev c.
+Proof. destruct c; reflexivity. Qed.
+
+(* Close after the transport moved on *)
+Lemma good_close_t c t' ev0 :
+  Inv c -> c_closed c = false -> forallb is_wire ev0 = true ->
+  Good c (close_c (upd_t c t'), ev0 ++ close_ev (upd_t c t')).
+Proof.
+  intros HI Hc Hw. pose proof (good_close (upd_t c t') ev0) as H.
+  destruct c. apply H; [exact HI|exact Hc|exact Hw].
+Qed.
+
+(* a refused chunk: the reply, then discardChunk *)
+Lemma good_refused c size w :
+  Inv c -> c_closed c = false ->
+  Good c (let '(c1, ev1) := discard_chunk cfg c size in (c1, EWire w :: ev1)).
+Proof.
+  intros HI Hc. rewrite discard_chunk_eq. destruct (discard_short c size).
+  - apply (good_close_t c (discard_t c size) [EWire w]); [exact HI|exact Hc|reflexivity].
+  - generalize (discard_t c size). intros t'. destruct c. cs. subst. wire_leaf HI.
 Qed.
 
 Lemma bdat_lmtp_replies_wires b e :
@@ -644,18 +695,26 @@ Proof.
   end.
   2:{ destruct more as [|a1 [|a2 more]]; [exact Hbody|exact Hbody|wire_leaf HI]. }
   destruct (parse_uint 32 a0) as [size| |]; [|wire_leaf HI|wire_leaf HI].
-  destruct fr; [|simp_cond; rewrite discard_chunk_eq; cs; wire_leaf HI].
-  destruct rc as [|r0 rc]; simp_cond; [rewrite discard_chunk_eq; cs; wire_leaf HI|].
+  destruct fr; [|simp_cond; apply good_refused; [exact HI|reflexivity]].
+  destruct rc as [|r0 rc]; simp_cond; [apply good_refused; [exact HI|reflexivity]|].
   match goal with
   | |- Good _ (match ?lo with None => _ | Some _ => _ end) => destruct lo as [last|]
   end.
-  2:{ rewrite discard_chunk_eq; cs; wire_leaf HI. }
+  2:{ apply good_refused; [exact HI|reflexivity]. }
   get_session HI se.
   destruct (negb (cf_max_bytes cfg =? 0)%Z && (cf_max_bytes cfg <? rv + Z.of_N size)%Z).
-  { rewrite do_reset_eq, discard_chunk_eq; cs; unfold reset_c, reset_ev; cs.
-    destruct (run_reset_sess tl true (r0 :: rc) da false false bd) as [po' Hr].
-    unfold Good, Step; cs; gen_wires; unfold absx; cs.
-    rewrite smon_run_app_wires by reflexivity; rewrite Hr; fin_open. }
+  { rewrite discard_chunk_eq.
+    match goal with |- context [discard_t ?c ?s] => generalize (discard_t c s); intros t' end.
+    match goal with |- context [discard_short ?c ?s] => destruct (discard_short c s) end.
+    - (* the chunk could not be skipped: Close, then the reset of a closed connection *)
+      cbv beta iota. rewrite do_reset_eq. unfold close_c, close_ev, reset_c, reset_ev; cs.
+      change (abort_ev None) with (@nil event).
+      apply good_reach; unfold absx; cs; gen_wires; rewrite <- ?app_assoc; cbn [app]; chain.
+      apply (reach_close tl true (r0 :: rc) da false false bd true); [discriminate|fin_close].
+    - cbv beta iota. rewrite do_reset_eq; cs; unfold reset_c, reset_ev; cs.
+      destruct (run_reset_sess tl true (r0 :: rc) da false false bd) as [po' Hr].
+      unfold Good, Step; cs; gen_wires; unfold absx; cs. change ([] ++ ?l) with l.
+      rewrite smon_run_app_wires by reflexivity; rewrite Hr; fin_open. }
   simp_cond.
   (* start the delivery if there is none *)
   assert (H0 : exists b0 ev0 be0 po0,
@@ -683,11 +742,13 @@ Proof.
   destruct (t_copy_n size (set_limit t 0)) as [[chunk cerr] t1].
   destruct (run_bd_feed false true tl true (r0 :: rc) da false po0 b0 chunk) as [po1 H1].
   destruct (bd_feed b0 chunk) as [[b1 ev1] werr]. cbn [fst snd] in H1.
-  destruct werr as [e|]; [|destruct cerr as [te|]].
-  1: cbv beta iota.
-  2: (cbv beta iota; destruct (t_copy_n (size - blen chunk) t1) as [[dg de] t1d]).
-  1,2: destruct (last && cf_lmtp cfg).
-  1,3: match goal with
+  destruct werr as [e|]; [destruct cerr as [te|]|destruct cerr as [te|]].
+  1,2: cbv beta iota zeta.
+  3: (cbv beta iota zeta; destruct (t_copy_n (size - blen chunk) t1) as [[dg [de|]] t1d]; cbv beta iota zeta).
+  (* 1: write error, chunk short; 2: write error, chunk read; 3: read error, discard short;
+     4: read error, discard complete; 5: the chunk was copied completely *)
+  1-4: destruct (last && cf_lmtp cfg).
+  1,3,5,7: match goal with
        | H : smon_run _ _ _ = Some (mk_abs _ _ ?tl _ ?rcs (Some ?b1) ?da _ ?po1) |- context [bd_end ?b1 ?pe] =>
          destruct (run_bd_end false true tl true rcs da false po1 b1 pe) as [po2 [H2 Hd2]];
          destruct (bd_end b1 pe) as [b2 ev2] end;
@@ -696,13 +757,15 @@ Proof.
          pose proof (bdat_lmtp_replies_wires b2 e) as Hw;
          destruct (bdat_lmtp_replies cfg b2 e) as [rs pk] end;
        cbn [fst] in Hw; cs.
-  3,4: match goal with |- context [data_error_to_status ?e] =>
+  (* (the selected goals now come first) *)
+  5-8: match goal with |- context [data_error_to_status ?e] =>
          destruct (data_error_to_status e) as [[code ec] msg] end; cs.
-  1,3: match goal with |- context [if bd_panics ?b then _ else _] => destruct (bd_panics b) end.
-  1-6: rewrite ?do_close_eq; cs; rewrite ?do_reset_eq; unfold close_c, close_ev, reset_c, reset_ev; cs.
-  1-6: change (abort_ev None) with (@nil event).
-  1-6: apply good_reach; unfold absx; cs; gen_wires; rewrite <- ?app_assoc; cbn [app]; chain.
-  1-6: first
+  1,2,5,6: match goal with |- context [bd_panics ?b || _] => destruct (bd_panics b) end.
+  1-12: cbn [orb]; cbv beta iota.
+  1-12: rewrite ?do_close_eq; cs; rewrite ?do_reset_eq; unfold close_c, close_ev, reset_c, reset_ev; cs.
+  1-12: change (abort_ev None) with (@nil event).
+  1-12: apply good_reach; unfold absx; cs; gen_wires; rewrite <- ?app_assoc; cbn [app]; chain.
+  1-12: first
     [ apply reach_reset; fin_reset
     | match goal with
       | |- Reach (mk_abs _ _ ?tl _ ?rc ?bd ?da ?mr ?po) _ _ =>
